@@ -169,6 +169,38 @@ pub fn debug_cmd(args: &[String]) {
                 let _ = MetaCfg::linear();
             }
         }
+        Some("bl") => {
+            // dbg bl: every operation x shape of gens/builtin_loops compiles, runs and passes the gas check.
+            use crate::gens::builtin_loops as bl;
+            let db = crate::core::exec::FrontCfg::default_cfg().new_db(crate::core::cairo::Plugins::Default);
+            for k in 0..bl::N_OPS {
+                for shape in 0..6 {
+                    let mut ch = crate::core::choices::Choices::new(vec![k as u32 * 7919 + shape as u32; 8]);
+                    let p = bl::build(&mut ch, shape, vec![k]);
+                    let meta = crate::core::exec::MetaCfg::linear();
+                    match crate::core::exec::compile_source(&db, &format!("bl{k}x{shape}"), &p.source, meta) {
+                        Err(e) => {
+                            println!("op {} shape {shape}: DOES NOT COMPILE\n{}\n{}", bl::OP_NAMES[k], &format!("{e:?}")[..1500.min(format!("{e:?}").len())], p.source);
+                            break;
+                        }
+                        Ok(c) => {
+                            let f = c.runner.find_function("::run").unwrap().clone();
+                            let a = vec![cairo_lang_runner::Arg::Value(7.into()), cairo_lang_runner::Arg::Value(5.into())];
+                            match crate::core::exec::run(&c, &f, a, Some(execs::BIG_GAS)) {
+                                Ok(e) => println!(
+                                    "op {} shape {shape}: {:?} builtins {:?} gas {:?}",
+                                    bl::OP_NAMES[k],
+                                    match &e.value { cairo_lang_runner::RunResultValue::Success(v) => format!("ok {}", v.len()), cairo_lang_runner::RunResultValue::Panic(d) => format!("panic {d:?}") },
+                                    e.resources.builtin_instance_counter,
+                                    crate::oracle::trace::check_gas(&e, execs::BIG_GAS).map(|r| r.map(|x| x.slack).map_err(|(_, m)| m))
+                                ),
+                                Err(e) => println!("op {} shape {shape}: RUN ERROR {e:?}", bl::OP_NAMES[k]),
+                            }
+                        }
+                    }
+                }
+            }
+        }
         Some("rare") => {
             let db = cairo_lang_parser::utils::SimpleParserDatabase::default();
             for (i, item) in crate::gens::rare::RARE_ITEMS.iter().enumerate() {
